@@ -1,7 +1,177 @@
-//! C08 — stub (monitor not built yet)
-use crate::run::{Ctx, Report, Stats};
-pub fn run(_ctx: &Ctx) -> Report {
-    let mut r = Report::new(Stats::default(), "not built");
-    r.inconclusive.push("monitor-not-built".into());
-    r
+//! C08 — iterative solvers: reported success means solved to the tolerance.
+use crate::fl::{self, U};
+use crate::mon::common::*;
+use crate::rng::Rng;
+use crate::run::{catch, par_run, Ctx, Outcome, Report, Stats};
+use ohsl::{Sparse, Vector};
+
+const TAG: u64 = 0xC08;
+/// Allowed excess of the true residual over tol, in units u*(it+1)*(||A||_F*max_k||x_k||+||b||)/||b||*.
+/// Calibrated on 3.6 M outcomes of the unchanged tree: CG/BiCG/BiCGSTAB worst 2.3 units; QMR's coupled
+/// recurrences (d, s updated from p, A p) drift with the size of its *direction* vectors, not of the
+/// iterates: worst 58 units, always at tol < 1e-11 next to its attainable-accuracy floor. A wrong
+/// recurrence or an early Ok misses tol by a factor, i.e. by 1e3..1e12 units for tol >= 1e-10.
+pub fn drift_units(sv: Solver) -> f64 { if sv == Solver::Qmr { 16384.0 } else { 256.0 } }
+
+#[derive(Clone, Copy, Debug, PartialEq)]
+pub enum Solver { Cg, Bicg1, Bicg2, Bicgstab, Qmr }
+pub const SOLVERS: [Solver; 5] = [Solver::Cg, Solver::Bicg1, Solver::Bicg2, Solver::Bicgstab, Solver::Qmr];
+impl Solver {
+    pub fn name(&self) -> &'static str { match self { Solver::Cg => "cg", Solver::Bicg1 => "bicg-itol1", Solver::Bicg2 => "bicg-itol2", Solver::Bicgstab => "bicgstab", Solver::Qmr => "qmr" } }
+    pub fn call(&self, a: &Sparse<f64>, b: &Vector<f64>, x: &mut Vector<f64>, max_iter: usize, tol: f64) -> Result<usize, f64> {
+        match self {
+            Solver::Cg => a.solve_cg(b, x, max_iter, tol),
+            Solver::Bicg1 => a.solve_bicg(b, x, max_iter, tol, 1),
+            Solver::Bicg2 => a.solve_bicg(b, x, max_iter, tol, 2),
+            Solver::Bicgstab => a.solve_bicgstab(b, x, max_iter, tol),
+            Solver::Qmr => a.solve_qmr(b, x, max_iter, tol),
+        }
+    }
+}
+
+#[derive(Clone, Debug)]
+pub struct Sys { pub n: usize, pub trip: Vec<(usize, usize, f64)>, pub class: &'static str }
+impl Sys {
+    pub fn dense(&self) -> Vec<Vec<f64>> { let mut d = vec![vec![0.0; self.n]; self.n]; for &(r, c, v) in &self.trip { d[r][c] = v; } d }
+    pub fn sparse(&self, rng: &mut Rng) -> Sparse<f64> { let mut t = self.trip.clone(); rng.shuffle(&mut t); Sparse::<f64>::from_triplets(self.n, self.n, &mut t) }
+    pub fn frob(&self) -> f64 { self.trip.iter().map(|t| t.2 * t.2).sum::<f64>().sqrt() }
+    pub fn max_row_nnz(&self) -> usize { let mut c = vec![0usize; self.n]; for t in &self.trip { c[t.0] += 1; } c.into_iter().max().unwrap_or(0) }
+}
+
+fn from_dense(d: &Vec<Vec<f64>>, class: &'static str) -> Sys {
+    let n = d.len();
+    let mut trip = vec![];
+    for i in 0..n { for j in 0..n { if d[i][j] != 0.0 { trip.push((i, j, d[i][j])); } } }
+    Sys { n, trip, class }
+}
+
+/// off-diagonal random pattern
+fn offdiag(rng: &mut Rng, n: usize, sym: bool) -> Vec<Vec<f64>> {
+    let p = if n <= 3 { 0.8 } else { rng.range(1.5, 5.0) / n as f64 };
+    let mut d = vec![vec![0.0; n]; n];
+    for i in 0..n { for j in 0..n { if i != j && (!sym || i < j) && rng.chance(p) { let v = rng.sym(); d[i][j] = v; if sym { d[j][i] = v; } } } }
+    d
+}
+
+/// system classes of every kind (C08 makes no demand unless the solver answers Ok)
+pub fn gen_any(rng: &mut Rng, n: usize) -> Sys {
+    match rng.below(8) {
+        0 => { // SPD: symmetric strictly dominant, positive diagonal
+            let mut d = offdiag(rng, n, true); let m = rng.logpos(1e-3, 2.0);
+            for i in 0..n { let s: f64 = d[i].iter().map(|v| v.abs()).sum(); d[i][i] = s + m; } from_dense(&d, "spd-dominant") }
+        1 => { // SPD via B^T B + mu I
+            let b = offdiag(rng, n, false); let mu = rng.logpos(1e-6, 1.0);
+            let mut d = vec![vec![0.0; n]; n];
+            for i in 0..n { for j in 0..n { let mut s = 0.0; for k in 0..n { s += b[k][i] * b[k][j]; } d[i][j] = s; } d[i][i] += mu; } from_dense(&d, "spd-gram") }
+        2 => { let mut d = offdiag(rng, n, false); for i in 0..n { let s: f64 = d[i].iter().map(|v| v.abs()).sum(); d[i][i] = (s + rng.logpos(1e-2, 2.0)) * if rng.bool() { 1.0 } else { -1.0 }; } from_dense(&d, "nonsymmetric-dominant") }
+        3 => { let mut d = offdiag(rng, n, false); for i in 0..n { d[i][i] = rng.sym() * 2.0; } from_dense(&d, "nonsymmetric-general") }
+        4 => { let mut d = offdiag(rng, n, true); for i in 0..n { d[i][i] = rng.sym() * 3.0; } from_dense(&d, "symmetric-indefinite") }
+        5 => { // badly row-scaled dominant
+            let mut d = offdiag(rng, n, false); for i in 0..n { let s: f64 = d[i].iter().map(|v| v.abs()).sum(); d[i][i] = s + 0.5; let sc = 2f64.powi(rng.int(-20, 20) as i32); for v in d[i].iter_mut() { *v *= sc; } } from_dense(&d, "row-scaled") }
+        6 => { let sy = rng.bool(); let mut d = offdiag(rng, n, sy); for i in 0..n { let s: f64 = d[i].iter().map(|v| v.abs()).sum(); d[i][i] = s * (1.0 + 1e-6) + 1e-9; } from_dense(&d, "nearly-singular-dominant") }
+        _ => { // exactly singular: zero row/column or duplicated row
+            let mut d = offdiag(rng, n, false); for i in 0..n { d[i][i] = 1.0 + rng.unit(); }
+            let k = rng.usize(0, n - 1);
+            if n >= 2 && rng.bool() { let k2 = (k + 1) % n; d[k2] = d[k].clone(); } else { for v in d[k].iter_mut() { *v = 0.0; } if rng.bool() { for i in 0..n { d[i][k] = 0.0; } } }
+            from_dense(&d, "exactly-singular") }
+    }
+}
+
+pub fn norm2(v: &[f64]) -> f64 { fl::dot_dd(v, v).f().sqrt() }
+
+/// true residual ||b - A x||_2 in double-double
+pub fn true_resid(d: &Vec<Vec<f64>>, x: &[f64], b: &[f64]) -> f64 {
+    let n = b.len();
+    let mut s = fl::DD::ZERO;
+    for i in 0..n { let mut r = fl::DD::from(b[i]); for j in 0..n { if d[i][j] != 0.0 { r = r - fl::DD::prod(d[i][j], x[j]); } } s = s + r * r; }
+    s.f().sqrt()
+}
+
+pub fn bits(v: &[f64]) -> Vec<u64> { v.iter().map(|x| x.to_bits()).collect() }
+
+/// max_k ||x_k||_2 over the iterates, obtained at the client boundary by budget replay
+pub fn max_iterate_norm(sv: Solver, a: &Sparse<f64>, b: &Vector<f64>, x0: &[f64], it: usize, tol: f64) -> f64 {
+    let mut m = norm2(x0);
+    for k in 1..=it {
+        let mut x = Vector::create(x0.to_vec());
+        let _ = catch(|| sv.call(a, b, &mut x, k, tol));
+        let nk = norm2(&x.vec);
+        if nk.is_finite() && nk > m { m = nk; }
+    }
+    m
+}
+
+pub struct OkJudgement { pub excess_units: f64, pub violated: bool, pub detail: String }
+
+/// the C08 implication for an Ok(it) answer
+pub fn judge_ok(sv: Solver, sys: &Sys, d: &Vec<Vec<f64>>, a: &Sparse<f64>, b: &[f64], x0: &[f64], x: &[f64], it: usize, tol: f64) -> OkJudgement {
+    let bn = norm2(b);
+    let bstar = if bn == 0.0 { 1.0 } else { bn };
+    let tr = true_resid(d, x, b) / bstar;
+    let unit = |m: f64| U * (it as f64 + 1.0) * (sys.frob() * m + bn) / bstar;
+    let m0 = norm2(x0).max(norm2(x));
+    let mut units = if tr <= tol { 0.0 } else { (tr - tol) / unit(m0) };
+    let mut mused = m0;
+    // whenever the cheap lower bound on the iterate norms is not already comfortable, obtain the true
+    // maximum over the iterates by budget replay (this is the quantity the property's drift term names)
+    if units > 1.0 {
+        let bv = Vector::create(b.to_vec());
+        mused = max_iterate_norm(sv, a, &bv, x0, it, tol).max(m0);
+        units = (tr - tol) / unit(mused);
+    }
+    OkJudgement { excess_units: units, violated: !(units <= drift_units(sv)), detail: format!("true relative residual {:e}, tol {:e}, drift unit {:e} (max iterate norm {:e}), excess {:.2} units > {}", tr, tol, unit(mused), mused, units, drift_units(sv)) }
+}
+
+fn one_system(st: &mut Stats, rng: &mut Rng) {
+    let n = if rng.chance(0.25) { rng.usize(1, 4) } else { rng.usize(1, 60) };
+    let sys = gen_any(rng, n);
+    let d = sys.dense();
+    let a = match catch(|| sys.sparse(rng)) { Outcome::Ok(a) => a, _ => return };
+    let bkind = rng.below(6);
+    let b: Vec<f64> = match bkind { 0 => vec![0.0; n], 1 => (0..n).map(|_| rng.sym() * 1e6).collect(), 2 => (0..n).map(|_| rng.sym() * 1e-6).collect(), _ => (0..n).map(|_| rng.sym()).collect() };
+    let x0: Vec<f64> = match rng.below(3) { 0 => vec![0.0; n], 1 => (0..n).map(|_| rng.sym()).collect(), _ => (0..n).map(|_| rng.sym() * 1e3).collect() };
+    let tol = rng.logpos(1e-12, 1e-2);
+    let budget = *rng.pick(&[0usize, 1, 2, 3, 4, n, 3 * n + 10, 20 * n + 50]);
+    let bv = Vector::create(b.clone());
+    for sv in SOLVERS {
+        st.next_case();
+        let desc = || format!("solver={} class={} n={} tol={:e} max_iter={} b={:?} x0={:?} triplets={:?}", sv.name(), sys.class, n, tol, budget, b, x0, sys.trip);
+        let mut x = Vector::create(x0.clone());
+        let out = catch(|| sv.call(&a, &bv, &mut x, budget, tol));
+        st.eval();
+        let res = match out { Outcome::Ok(r) => r, o => { st.violation(&format!("C08:{}:panic", sv.name()), format!("{}; {}", o.describe(), desc())); continue; } };
+        // determinism: the same call twice gives a bit-identical outcome
+        let mut x2 = Vector::create(x0.clone());
+        let res2 = catch(|| sv.call(&a, &bv, &mut x2, budget, tol));
+        let same = match (&res, &res2) { (Ok(p), Outcome::Ok(Ok(q))) => p == q, (Err(p), Outcome::Ok(Err(q))) => p.to_bits() == q.to_bits(), _ => false };
+        if !same || bits(&x.vec) != bits(&x2.vec) { st.violation(&format!("C08:{}:nondeterministic", sv.name()), desc()); }
+        if budget == 0 && bits(&x.vec) != bits(&x0) { st.violation(&format!("C08:{}:zero-budget-touched-x", sv.name()), format!("x after = {:?}; {}", x.vec, desc())); }
+        st.count(&format!("outcomes:{}:{}:{}", sv.name(), sys.class, if res.is_ok() { "Ok" } else { "Err" }));
+        if let Ok(it) = res {
+            if it > budget { st.violation(&format!("C08:{}:iterations-exceed-budget", sv.name()), format!("Ok({}) with max_iter {}; {}", it, budget, desc())); }
+            if x.vec.len() != n || !fl::all_finite(&x.vec) { st.violation(&format!("C08:{}:ok-nonfinite-x", sv.name()), format!("Ok({}) but x = {:?}; {}", it, x.vec, desc())); continue; }
+            let j = judge_ok(sv, &sys, &d, &a, &b, &x0, &x.vec, it, tol);
+            st.max(&format!("excess_units:{}", sv.name()), j.excess_units);
+            if j.violated { st.violation(&format!("C08:{}:ok-but-unsolved", sv.name()), format!("Ok({}): {}; x={:?}; {}", it, j.detail, x.vec, desc())); }
+            // metamorphic: a larger budget does not change an Ok answer
+            if it > 0 && rng.chance(0.2) {
+                let mut x3 = Vector::create(x0.clone());
+                let r3 = catch(|| sv.call(&a, &bv, &mut x3, budget + 7, tol));
+                if !matches!(r3, Outcome::Ok(Ok(k)) if k == it) || bits(&x3.vec) != bits(&x.vec) { st.violation(&format!("C08:{}:budget-dependent-answer", sv.name()), desc()); }
+            }
+            if n >= 2 && it >= 1 { let mut h = hash_str(sv.name()) ^ hash_str(sys.class); for t in sys.trip.iter().take(6) { h = hmix(h, t.2.to_bits()); } st.nontrivial(hmix(h, tol.to_bits())); }
+            st.set_insert(&format!("ok-iterations:{}", sv.name()), format!("{}", it.min(200)));
+        }
+        st.sample(|| desc());
+    }
+}
+
+pub fn run(ctx: &Ctx) -> Report {
+    let units = ctx.vol(6000, 150_000);
+    let stats = par_run(ctx, TAG, units, |_u, rng, st| { for _ in 0..4 { one_system(st, rng); } });
+    let mut rep = Report::new(stats,
+        "random square sparse systems of order 1..60 of 8 kinds (SPD dominant, SPD Gram, nonsymmetric dominant, nonsymmetric general, symmetric indefinite, row-scaled 2^+-20, nearly singular, exactly singular), rhs zero/1e6/1e-6/O(1), x0 zero/random/1e3*random, tol log-uniform 1e-12..1e-2, budgets {0..4,n,3n+10,20n+50}; all five solver variants on each. Judged: no panic, determinism, zero budget leaves x bit-identical, and whenever Ok(it): it<=max_iter, x finite, true residual (double-double, dense copy) <= tol + 256 (QMR: 16384) drift units u*(it+1)*(||A||_F*max_k||x_k||+||b||)/||b||* (max over iterates by budget replay when needed). Non-trivial: an Ok outcome with it>=1 on n>=2; distinct = distinct (solver,class,entries,tol) hashes");
+    rep.assumptions = vec!["drift allowance 256 units (QMR 16384) fixed; measured worst excess on the unchanged tree is recorded under maxima excess_units:* (2.3 / 58 over 3.6 M outcomes)".into(), "nothing is demanded when the solver answers Err (that half is C09)".into()];
+    rep.min_nontrivial = 300;
+    rep
 }
